@@ -33,6 +33,7 @@
 #include <bxdecay0/event.h>
 #include <bxdecay0/event_reader.h>
 #include <bxdecay0/gauss.h>
+#include <bxdecay0/mdl_event_op.h>
 #include <bxdecay0/resource.h>
 #include <bxdecay0/version.h>
 
@@ -258,6 +259,11 @@ static std::vector<std::string> run_job(const Job & j, uint64_t seed, int nev, s
       g.set_decay_dbd_mode((bxdecay0::dbd_mode_type)j.mode);
       if (j.window) g.set_decay_dbd_esum_range(0.25, 0.75);
     }
+    if ((hash_str(j.name) + j.mode) % 2 == 0) {
+      auto op = std::make_shared<bxdecay0::momentum_direction_lock_event_op>();
+      op->set_with_aperture_rectangular_cut(bxdecay0::INVALID_PARTICLE, 0, 1.0, 0.7, 0.3 + 0.05 * (j.mode % 5), 0.2, false);
+      g.add_operation(op);
+    }
     Tape t(seed, hash_str(j.name) + j.mode);
     g.initialize(t);
     bxdecay0::event e;
@@ -367,6 +373,15 @@ static uint64_t sweep_one(const SweepCfg & c, uint64_t seed, int nev, std::strin
       g.set_decay_dbd_mode((bxdecay0::dbd_mode_type)c.mode);
     }
     uint64_t stream = (hash_str(c.name) + (uint64_t)c.mode * 131 + (uint64_t)c.level) << 16;
+    // a third of the configurations carry a momentum-direction-lock operation (circular or rectangular cut, apertures that differ from
+    // one configuration to the next): post-generation operations run inside shoot() on every thread too
+    if ((stream >> 16) % 3 == 0) {
+      auto op = std::make_shared<bxdecay0::momentum_direction_lock_event_op>();
+      double ap1 = 0.2 + 0.1 * (double)((stream >> 18) % 7), ap2 = 0.1 + 0.05 * (double)((stream >> 21) % 5);
+      if ((stream >> 17) % 2) op->set_with_aperture_rectangular_cut(bxdecay0::INVALID_PARTICLE, 0, 0.3, 1.1, ap1, ap2, false);
+      else op->set(bxdecay0::INVALID_PARTICLE, 0, 0.3, 1.1, ap1, false);
+      g.add_operation(op);
+    }
     Tape t(seed, stream);
     g.initialize(t);
     bxdecay0::event e;
